@@ -164,9 +164,9 @@ func (c *Client) listenTCPInternal(host string, port int) (net.Listener, error) 
 		Port: port,
 	}
 	addr := net.JoinHostPort(host, strconv.FormatInt(int64(port), 10))
-	ch := c.forwards.add("tcp", addr)
+	ch, closed := c.forwards.add("tcp", addr)
 
-	return &tcpListener{laddr, addr, c, ch}, nil
+	return &tcpListener{laddr, addr, c, ch, closed}, nil
 }
 
 // forwardList stores a mapping between remote
@@ -182,6 +182,10 @@ type forwardEntry struct {
 	addr    string // host:port or socket path
 	network string // tcp or unix
 	c       chan forward
+	// closed is closed when the entry is removed from the list. c itself is
+	// never closed, so that a forward being delivered cannot race with the
+	// listener being closed.
+	closed chan struct{}
 }
 
 // forward represents an incoming forwarded tcpip connection. The
@@ -192,16 +196,17 @@ type forward struct {
 	raddr net.Addr   // the raddr of the incoming connection
 }
 
-func (l *forwardList) add(n, addr string) chan forward {
+func (l *forwardList) add(n, addr string) (<-chan forward, <-chan struct{}) {
 	l.Lock()
 	defer l.Unlock()
 	f := forwardEntry{
 		addr:    addr,
 		network: n,
 		c:       make(chan forward, 1),
+		closed:  make(chan struct{}),
 	}
 	l.entries = append(l.entries, f)
-	return f.c
+	return f.c, f.closed
 }
 
 // See RFC 4254, section 7.2
@@ -277,55 +282,109 @@ func (l *forwardList) handleChannels(in <-chan NewChannel) {
 	}
 }
 
-// remove removes the forward entry, and the channel feeding its
-// listener.
-func (l *forwardList) remove(n, addr string) {
-	l.Lock()
-	defer l.Unlock()
-	for i, f := range l.entries {
-		if n == f.network && addr == f.addr {
-			l.entries = append(l.entries[:i], l.entries[i+1:]...)
-			close(f.c)
+// close marks the entry as closed, which makes Accept on its listener
+// return an error, and rejects forwards that were queued but never accepted.
+func (f *forwardEntry) close() {
+	close(f.closed)
+	f.rejectPending()
+}
+
+// rejectPending rejects the forwards queued for a closed listener.
+func (f *forwardEntry) rejectPending() {
+	for {
+		select {
+		case fwd := <-f.c:
+			fwd.newCh.Reject(ConnectionFailed, "listener closed")
+		default:
 			return
 		}
 	}
 }
 
+// remove removes the forward entry, and closes its listener.
+func (l *forwardList) remove(n, addr string) {
+	l.Lock()
+	for i, f := range l.entries {
+		if n == f.network && addr == f.addr {
+			l.entries = append(l.entries[:i], l.entries[i+1:]...)
+			l.Unlock()
+			f.close()
+			return
+		}
+	}
+	l.Unlock()
+}
+
 // closeAll closes and clears all forwards.
 func (l *forwardList) closeAll() {
 	l.Lock()
-	defer l.Unlock()
-	for _, f := range l.entries {
-		close(f.c)
-	}
+	entries := l.entries
 	l.entries = nil
+	l.Unlock()
+	for _, f := range entries {
+		f.close()
+	}
 }
 
 func (l *forwardList) forward(n, addr string, raddr net.Addr, ch NewChannel) bool {
 	l.Lock()
-	defer l.Unlock()
-	for _, f := range l.entries {
-		if n == f.network && addr == f.addr {
-			f.c <- forward{newCh: ch, raddr: raddr}
-			return true
+	var entry *forwardEntry
+	for i := range l.entries {
+		if f := l.entries[i]; n == f.network && addr == f.addr {
+			entry = &f
+			break
 		}
 	}
-	return false
+	l.Unlock()
+	if entry == nil {
+		return false
+	}
+	// Deliver without holding the lock: the listener may not be accepting,
+	// and closing it must not wait for this send.
+	select {
+	case entry.c <- forward{newCh: ch, raddr: raddr}:
+		select {
+		case <-entry.closed:
+			// The listener was closed while the forward was being queued.
+			entry.rejectPending()
+		default:
+		}
+		return true
+	case <-entry.closed:
+		return false
+	}
+}
+
+// acceptForward returns the next forward queued on in, or io.EOF once closed is
+// closed.
+func acceptForward(in <-chan forward, closed <-chan struct{}) (forward, error) {
+	select {
+	case <-closed:
+		return forward{}, io.EOF
+	default:
+	}
+	select {
+	case s := <-in:
+		return s, nil
+	case <-closed:
+		return forward{}, io.EOF
+	}
 }
 
 type tcpListener struct {
 	laddr *net.TCPAddr
 	addr  string
 
-	conn *Client
-	in   <-chan forward
+	conn   *Client
+	in     <-chan forward
+	closed <-chan struct{}
 }
 
 // Accept waits for and returns the next connection to the listener.
 func (l *tcpListener) Accept() (net.Conn, error) {
-	s, ok := <-l.in
-	if !ok {
-		return nil, io.EOF
+	s, err := acceptForward(l.in, l.closed)
+	if err != nil {
+		return nil, err
 	}
 	ch, incoming, err := s.newCh.Accept()
 	if err != nil {
